@@ -74,6 +74,10 @@ def report_live_bad(chk, res, flat):
             elif "second-level" in cfg0 and "Ext:true" in cfg0:
                 # continuation on a crash image of a workload that discarded precommitted txs: the hash tree recovered with stale leaves
                 sig = "recovery:binary-linking-inconsistent-after-discarded-precommits"
+            elif "second-level" in cfg0:
+                # continuation on a crash image: a precommitted tx lost in the crash left its leaf / digests in the hash tree's files (rolled
+                # back logically only); the tx that took its id embeds a root computed over the stale digests
+                sig = "recovery:binary-linking-inconsistent-after-repeated-crash"
             else:
                 sig = "live:precommit-embeds-wrong-binary-linking-root"
             chk.violation(sig, "tx %d was precommitted with a BlRoot that is not the Merkle root over the accumulated hashes of txs 1..%d (config %s)"
